@@ -47,6 +47,12 @@ def gen_plan(r, tier):
             steps.append("s%d:%s" % (i, hx(data)))
             if r.random() < 0.3:
                 steps.append("w")
+            # the next request of the same connection arrives while the slow handler is still running (a readiness event
+            # for an in-flight connection): sent in its own segment after a pause, before the first response is read
+            if kd == "slow" and i not in failadd and len(queues[i]) >= 3 and queues[i][1][0] == "s" and r.random() < 0.5:
+                nxt = queues[i].pop(1)
+                steps.append("w")
+                steps.append("s%d:%s" % (i, hx(REQ[nxt[1]][0])))
         else:
             steps.append("r%d" % i)
             if i in failadd:
